@@ -101,6 +101,26 @@ def contents(P, F, fn, origin, site=None, _depth=0):
     while o[0] == "vp":
         o = o[2]
     if o[0] == "multi":
+        # an Option used as a zero-or-one element sequence (`.chain(cond.then(|| x))`, `.extend(maybe)`): the element, under
+        # the conditions of the place where it is made
+        al = [a for a in o[1]]
+        pa = []
+        for a in al:
+            while a[0] == "vp":
+                a = a[2]
+            pa.append(a)
+        somes = [a for a in pa if a[0] == "agg" and a[1].endswith("Option::Some")]
+        nones = [a for a in pa if a[0] == "agg" and a[1].endswith("Option::None")]
+        if len(pa) == 2 and len(somes) == 1 and len(nones) == 1:
+            e = somes[0][2][0][1]
+            x = e
+            while x[0] == "vp":
+                x = x[2]
+            st = x[4] if x[0] == "call" and len(x) > 4 and isinstance(x[4], tuple) and isinstance(x[4][1], int) else None
+            owner = F.fn(st[0]) if st else None
+            if owner is not None:
+                conds = [c1[1] for ee, c1 in q.dominating_conditions(P, owner, st[1]) if c1[0] == "bool" and not q.is_derived(c1)]
+                return [Contribution("single", expr=e, conds=conds, body=owner, site=st, how="option")]
         return [Contribution("opaque", how="several definitions")]
     if o[0] == "upd":
         out = contents(P, F, fn, o[1], site, _depth + 1)
@@ -197,6 +217,8 @@ def contents(P, F, fn, origin, site=None, _depth=0):
             return cs
         if o[1] in EMPTY_CTORS:
             return []
+        if o[1] == "std::iter::once" and len(o[2]) == 1:
+            return [Contribution("single", expr=o[2][0], site=site, how="once")]
         return [Contribution("all-of", src=strip_adapters(o), expr=("bound", "elem", strip_adapters(o)), site=site, how="call result")]
     if o[0] == "agg" and o[1] in ("array", "vec"):
         return [Contribution("single", expr=v, site=site, how="literal") for k, v in o[2]]
